@@ -29,6 +29,7 @@ ASAN_ENV = {"ASAN_OPTIONS": "detect_leaks=0:abort_on_error=0:allocator_may_retur
 VARIANTS = {
     "plain": ["-O1", "-g"],
     "asan": ["-O1", "-g", "-fsanitize=address,undefined", "-fno-sanitize-recover=all",
+             "-fno-sanitize=signed-integer-overflow",   # string/event hash functions wrap on purpose
              "-fno-omit-frame-pointer"],
     "tsan": ["-O1", "-g", "-fsanitize=thread"],
 }
@@ -246,7 +247,9 @@ def ocaml_driver(cid):
     hlp = os.path.join(VERIF, "ocaml", "helpers.ml")
     if not os.path.exists(ml):
         raise BuildError("extracted model %s missing" % ml)
-    key = digest_files([ml, mli, drv, hlp])
+    hz = os.path.join(VERIF, "ocaml", "helpers_z.ml")
+    use_z = "(*USE_Z*)" in open(drv).read()
+    key = digest_files([ml, mli, drv, hlp] + ([hz] if use_z else []))
     dname = "ml-%s-%s" % (cid, key)
     d = os.path.join(CACHE, dname)
     exe = os.path.join(d, "drv")
@@ -258,6 +261,8 @@ def ocaml_driver(cid):
     shutil.copy(mli, os.path.join(d, "model.mli"))
     with open(os.path.join(d, "main.ml"), "w") as f:
         f.write(open(hlp).read())
+        if use_z:
+            f.write(open(hz).read())
         f.write(open(drv).read())
     rc, o, e = sh(["ocamlfind", "ocamlopt", "-O3", "-w", "-a", "model.mli", "model.ml", "main.ml", "-o", "drv.tmp"], cwd=d, timeout=600)
     if rc != 0:
